@@ -205,3 +205,20 @@ for _p in ("C01", "C02", "C18"):
     FACT_OBLIGATIONS.setdefault(_p, []).append(_IR_START)
 for _p in ("C03", "C04", "C05", "C06"):
     FACT_OBLIGATIONS.setdefault(_p, []).append(_IR_START_RUN)
+
+# whole-function theorems about the translated Start, one per path (same state, result and events as Sx.start), each under an
+# explicit path hypothesis; unproved paths: a live reference chain, and the address test (the theorems about found sessions
+# assume AcceptRemoteIP <= 1, the default)
+_IR_START_ABC = [("Sessions.FactsIrStartBlocks", ["FactsIr.start_blocks", "FactsIr.execP_start"]),
+                 ("Sessions.FactsIrStartA", ["FactsIr.start_nocookie_eq"]),
+                 ("Sessions.FactsIrStartB", ["FactsIr.start_wronglen_eq"]),
+                 ("Sessions.FactsIrStartC", ["FactsIr.start_geterr_eq", "FactsIr.start_unknown_eq"])]
+for _p in ("C02", "C18"):
+    FACT_OBLIGATIONS.setdefault(_p, []).extend(_IR_START_ABC)
+FACT_OBLIGATIONS.setdefault("C11", []).append(("Sessions.FactsIrStartC", ["FactsIr.start_geterr_eq"]))
+for _p in ("C03", "C07"):
+    FACT_OBLIGATIONS.setdefault(_p, []).append(("Sessions.FactsIrStartD", ["FactsIr.start_invalid_eq"]))
+for _p in ("C01", "C03"):
+    FACT_OBLIGATIONS.setdefault(_p, []).append(("Sessions.FactsIrStartE", ["FactsIr.start_valid_plain_eq"]))
+FACT_OBLIGATIONS.setdefault("C04", []).append(("Sessions.FactsIrStartF", ["FactsIr.start_rotate_eq"]))
+FACT_OBLIGATIONS.setdefault("C05", []).append(("Sessions.FactsIrStartG", ["FactsIr.start_ref_expired_eq"]))
